@@ -38,7 +38,7 @@ META = {
 
 TRANSFORMS = ("map", "filter", "remove", "map_partitions", "pair_pluck", "starmap", "flatten", "repartition",
               "zip", "concat", "accumulate", "concat", "repartition", "map", "zip_self", "map_self",
-              "concat_other", "concat_plain", "concat_plain", "accumulate_initial")
+              "concat_other", "concat_plain", "concat_plain", "accumulate_initial", "concat_from_sequence")
 TERMINALS = ("identity", "distinct", "frequencies", "topk", "fold", "reduction", "foldby", "groupby_disk",
              "groupby_tasks", "join", "product", "take", "sum", "max", "min", "mean", "var", "std", "count",
              "any", "all", "product", "join", "foldby", "product_self", "join_self", "distinct_key", "topk_key",
@@ -161,6 +161,17 @@ def run_one(tape, cfg):
                 b = db.concat([b, ob2])
                 ref = ref + list(other)
                 ref_parts = None
+            elif st == "concat_from_sequence":
+                # two bags made by from_sequence from the same data with different partitionings
+                flat0 = [x for p in parts for x in p]
+                if not flat0:
+                    continue
+                pa = 1 + tape.draw(3, "fsa")
+                pb = pa + 1 + tape.draw(2, "fsb")
+                b = db.concat([b, db.from_sequence(flat0, npartitions=pa), db.from_sequence(flat0, npartitions=pb)])
+                ref = ref + flat0 + flat0
+                ref_parts = None
+                out.probe("from_sequence_same_data_two_partitionings")
             elif st == "concat":
                 b = db.concat([b, b.map(bf.add1)])
                 ref = ref + [x + 1 for x in ref]
